@@ -1142,6 +1142,8 @@ pub fn gen_c13(c: &mut Ctx) {
             p!(c, "soes info {} {}", n, ja);
             p!(c, "soes display {} {}", n, ja);
             p!(c, "soes or {} {} {}", n, ja, jb);
+            // the same object on both sides (the runner then also evaluates `&a | &a`)
+            p!(c, "soes or {} {} {}", n, ja, ja);
             let m = c.rng.below(1 << n);
             p!(c, "soes value {} {} {:x}", n, ja, m);
         }
@@ -1220,6 +1222,8 @@ pub fn gen_c14(c: &mut Ctx) {
                 if k % step == 0 {
                     p!(c, "sop and {} {} {}", n, scl(a), scl(b));
                     p!(c, "sop or {} {} {}", n, scl(a), scl(b));
+                    p!(c, "sop and {} {} {}", n, scl(a), scl(a));
+                    p!(c, "sop or {} {} {}", n, scl(a), scl(a));
                 }
             }
         }
@@ -1232,6 +1236,8 @@ pub fn gen_c14(c: &mut Ctx) {
             let b = rand_cube_list(&mut c.rng, n, kmax);
             p!(c, "sop and {} {} {}", n, scl(&a), scl(&b));
             p!(c, "sop or {} {} {}", n, scl(&a), scl(&b));
+            p!(c, "sop and {} {} {}", n, scl(&b), scl(&b));
+            p!(c, "sop or {} {} {}", n, scl(&b), scl(&b));
             let a5: Vec<(u32, u32)> = a.iter().take(5).cloned().collect();
             p!(c, "sop not {} {}", n, scl(&a5));
             p!(c, "sop tolut {} {}", n, scl(&a));
@@ -1286,6 +1292,8 @@ pub fn gen_c15(c: &mut Ctx) {
             let a = rand_cube_list(&mut c.rng, n, 8);
             let b = rand_cube_list(&mut c.rng, n, 8);
             p!(c, "esop xor {} {} {}", n, scl(&a), scl(&b));
+            // the same object on both sides (the runner then also evaluates `&a ^ &a`; seed C15-g)
+            p!(c, "esop xor {} {} {}", n, scl(&a), scl(&a));
             p!(c, "esop not {} {}", n, scl(&a));
             p!(c, "esop tolut {} {}", n, scl(&a));
             p!(c, "esop info {} {}", n, scl(&a));
